@@ -90,6 +90,12 @@ type Contract struct {
 	Lets        []LetDef
 	Note        string
 	CallAsserts map[string][]*Clause // "callee#n" -> asserted clauses before call
+	CallSets    map[string][]SetDef  // "callee#n" -> ghost assignments after the call
+}
+
+type SetDef struct {
+	Ghost string
+	E     Expr
 }
 
 type LetDef struct {
@@ -678,19 +684,35 @@ func (cs *ContractSet) parse(src, file string, line0 int) (err error) {
 				}
 			}
 		case "at":
-			// at callee#n assert expr
+			// at callee#n assert [tag] expr   |   at callee#n set ghost = expr
 			callee := lx.parseFuncKey()
-			lx.expect("#")
-			n := lx.next().s
-			kw := lx.next().s
-			if kw != "assert" {
-				return fmt.Errorf("%s:%d: expected assert", file, t.line)
+			n := ""
+			if i := strings.LastIndex(callee, "#"); i >= 0 {
+				n = callee[i+1:]
+				callee = callee[:i]
+			} else {
+				lx.expect("#")
+				n = lx.next().s
 			}
-			tags := lx.parseTags()
-			start := lx.p
-			e := lx.parseExpr()
+			kw := lx.next().s
 			k := callee + "#" + n
-			cur.CallAsserts[k] = append(cur.CallAsserts[k], &Clause{E: e, Src: lx.srcOf(start, lx.p), Tags: tags, Line: t.line})
+			switch kw {
+			case "assert":
+				tags := lx.parseTags()
+				start := lx.p
+				e := lx.parseExpr()
+				cur.CallAsserts[k] = append(cur.CallAsserts[k], &Clause{E: e, Src: lx.srcOf(start, lx.p), Tags: tags, Line: t.line})
+			case "set":
+				g := lx.next().s
+				lx.expect("=")
+				e := lx.parseExpr()
+				if cur.CallSets == nil {
+					cur.CallSets = map[string][]SetDef{}
+				}
+				cur.CallSets[k] = append(cur.CallSets[k], SetDef{g, e})
+			default:
+				return fmt.Errorf("%s:%d: expected assert or set", file, t.line)
+			}
 		case "loop":
 			nt := lx.next()
 			n, err := strconv.Atoi(nt.s)
@@ -809,11 +831,19 @@ func (lx *lexer) parseTags() []string {
 // parseFuncKey parses e.g. litestream.(*DB).sync | litestream.CalcRestorePlan | ltx.FileIterator.Next | file.(*ReplicaClient).WriteLTXFile
 func (lx *lexer) parseFuncKey() string {
 	var sb strings.Builder
+	lastID := false
 	for {
 		t := lx.peek()
 		if t.kind == "id" {
+			if lastID {
+				break
+			}
+			lastID = true
 			sb.WriteString(lx.next().s)
-		} else if t.kind == "op" && t.s == "." {
+			continue
+		}
+		lastID = false
+		if t.kind == "op" && t.s == "." {
 			lx.next()
 			sb.WriteString(".")
 		} else if t.kind == "op" && t.s == "(" {
